@@ -10,6 +10,10 @@
 #include "oneapi/tbb/concurrent_set.h"
 #include "oneapi/tbb/concurrent_map.h"
 #include "vh.h"
+#include <sys/mman.h>
+#include <sys/wait.h>
+#include <signal.h>
+#include <unistd.h>
 using namespace cosched;
 static vh::TraceOut TR;
 static std::vector<std::vector<std::string>> PROG;
@@ -19,7 +23,7 @@ static bool g_log_destroy = false;
 static int g_bar = 0;
 struct InjectedFault {};
 
-static size_t hashfn(int k) { if (HASH == "const") return 0; if (HASH == "low") return (size_t)(k & 1) | ((size_t)k << 16 & 0); return (size_t)k; }
+static size_t hashfn(int k) { if (HASH == "const") return 0; if (HASH == "id8") return (size_t)k; if (HASH == "low") return (size_t)(k & 1) | ((size_t)k << 16 & 0); return (size_t)k; }
 struct HC { static size_t hash(int k) { return hashfn(k); } static bool equal(int a, int b) { return a == b; } size_t operator()(int k) const { return hashfn(k); } };
 
 struct PE { int v; PE(int x = 0) : v(x) {} PE(const PE& o) : v(o.v) { if (__atomic_add_fetch(&g_copies, 1, __ATOMIC_SEQ_CST) == g_fail_copy) throw InjectedFault(); }
@@ -61,6 +65,10 @@ template <> struct Drv<HM> {
             bool e = w ? m.erase(a) : m.erase(ca);
             TR.emit("{\"e\":\"Res\",\"t\":%d,\"r\":%d,\"m\":\"N\",\"g\":0}", T, e ? 1 : 0);
             return;
+        }
+        if (o == "fill") {          // sequential prefix: 251 consecutive keys inserted as ONE event of the history (the table is filled up to its growth threshold)
+            std::string ks; for (int i = 0; i < 251; i++) { HM::accessor a; m.insert(a, k + i); stamp(a->second, k + i); a.release(); ks += (i ? "," : "") + std::to_string(k + i); }
+            TR.emit("{\"e\":\"Prefill\",\"keys\":[%s]}", ks.c_str()); return;
         }
         const char* aop = (o == "ins" || o == "insw") ? "insert" : (o == "find" || o == "findw" || o == "findr") ? "find" : o == "erase" ? "erase" : "count";
         TR.emit("{\"e\":\"Inv\",\"t\":%d,\"op\":\"%s\",\"k\":%d}", T, aop, k);
@@ -110,33 +118,52 @@ template <> struct Drv<OS> : SetDrv<OS, false, true, false> {}; template <> stru
 template <> struct Drv<UM> : SetDrv<UM, false, false, true> {}; template <> struct Drv<OM> : SetDrv<OM, false, true, true> {};
 
 template <class C> static C* make() { return new C; }
-template <> HM* make<HM>() { HM* m = new HM(1); cosched::track(&m->my_mask); return m; }            // 1 initial bucket request: growth thresholds are crossed within a few inserts
+template <> HM* make<HM>() { HM* m = new HM(HASH == "id8" ? 8 : 1); cosched::track(&m->my_mask); return m; }       // ("id8": 8 initial buckets, so that a chain of several keys exists in one bucket before the table doubles)            // 1 initial bucket request: growth thresholds are crossed within a few inserts
 template <> US* make<US>() { return new US(2); } template <> UMS* make<UMS>() { return new UMS(2); } template <> UM* make<UM>() { return new UM(2); }
 
+// runs are executed in forked chunks: a change that corrupts a container crashes (or hangs) a child, which becomes a Crash / Stuck event of that execution
+struct Shared { long steps, stuck; };
 template <class C> static int run(int argc, char** argv, long failk) {
-    int n = atoi(argv[2]); unsigned long seed0 = strtoul(argv[3], nullptr, 10); TR.open(argv[4]); HASH = argv[5];
+    int n = atoi(argv[2]); unsigned long seed0 = strtoul(argv[3], nullptr, 10); HASH = argv[5];
     for (int i = 6; i < argc; i++) PROG.push_back(vh::split(argv[i], ','));
-    N = (int)PROG.size(); long steps = 0, stuck = 0; vh::Timer tm; static const int dens[8] = {1, 3, 10, 40, -1, -2, -3, -5};
-    for (int r = 0; r < n && stuck < (getenv("VERIF_MAXSTUCK") ? atoi(getenv("VERIF_MAXSTUCK")) : 10); r++) {
-        TR.begin_exec(); Drv<C>::cfg(failk > 0);
-        untrack_all(); g_log_destroy = false; C* c = make<C>(); g_log_destroy = true; g_copies = 0; g_fail_copy = failk;
-        Sched S; S.stall_limit = 40000; S.log_schedule = true; focus_only(false);
-        g_bar = 0;
-        S.spawn(N, [&](int t) { for (auto& op : PROG[t]) { auto f = vh::split(op, ':');
-            if (f[0] == "bar") { __atomic_add_fetch(&g_bar, 1, __ATOMIC_SEQ_CST); while (__atomic_load_n(&g_bar, __ATOMIC_SEQ_CST) < N) cosched::yield_point(); continue; }   // harness barrier: a sequential prefix before the concurrent phase
-            Drv<C>::op(*c, t + 1, f[0], f.size() > 1 ? atoi(f[1].c_str()) : 0); } });
-        int rc = S.run_random(seed0 + r, 4000000, dens[r % 8]); steps += S.steps;
-        TR.sched(S.sched_log);
-        if (rc != RC_OK) { ++stuck; TR.emit("{\"e\":\"Stuck\",\"rc\":\"%s\"}", rc_name(rc).c_str()); S.join_all(); continue; }
-        S.join_all(); g_fail_copy = -1;
-        // the final sequential inspection runs on a logical thread too: a container that an earlier fault left wedged must end as a Stuck event, not hang the harness
-        { Sched F; F.stall_limit = 40000; F.spawn(1, [&](int) { Drv<C>::final(*c); }); int frc = F.finish(4000000); steps += F.steps;
-          if (frc != RC_OK) { ++stuck; TR.emit("{\"e\":\"Stuck\",\"rc\":\"%s\",\"at\":\"final\"}", rc_name(frc).c_str()); F.join_all(); continue; }
-          F.join_all(); }
-        g_log_destroy = false; delete c;
+    N = (int)PROG.size(); vh::Timer tm; static const int dens[8] = {1, 3, 10, 40, -1, -2, -3, -5};
+    Shared* sh = (Shared*)mmap(nullptr, sizeof(Shared), PROT_READ | PROT_WRITE, MAP_SHARED | MAP_ANONYMOUS, -1, 0); memset(sh, 0, sizeof *sh);
+    const long maxstuck = getenv("VERIF_MAXSTUCK") ? atoi(getenv("VERIF_MAXSTUCK")) : 10; long crashed = 0;
+    FILE* out = fopen(argv[4], "w"); bool first = true; std::string tmp = std::string(argv[4]) + ".child";
+    for (int c0 = 0; c0 < n && sh->stuck < maxstuck && crashed < 4; c0 += 50) {
+        fflush(nullptr);
+        pid_t pid = fork();
+        if (pid == 0) {
+            alarm(600); TR.open(tmp.c_str()); setvbuf(TR.f, nullptr, _IOLBF, 0);
+            for (int r = c0; r < c0 + 50 && r < n && sh->stuck < maxstuck; r++) {
+                TR.begin_exec(); Drv<C>::cfg(failk > 0);
+                untrack_all(); g_log_destroy = false; C* c = make<C>(); g_log_destroy = true; g_copies = 0; g_fail_copy = failk;
+                Sched S; S.stall_limit = 40000; S.log_schedule = true; focus_only(false);
+                g_bar = 0;
+                S.spawn(N, [&](int t) { for (auto& op : PROG[t]) { auto f = vh::split(op, ':');
+                    if (f[0] == "bar") { __atomic_add_fetch(&g_bar, 1, __ATOMIC_SEQ_CST); while (__atomic_load_n(&g_bar, __ATOMIC_SEQ_CST) < N) cosched::yield_point(); continue; }   // harness barrier: a sequential prefix before the concurrent phase
+                    Drv<C>::op(*c, t + 1, f[0], f.size() > 1 ? atoi(f[1].c_str()) : 0); } });
+                int rc = S.run_random(seed0 + r, 4000000, dens[r % 8]); sh->steps += S.steps;
+                TR.sched(S.sched_log);
+                if (rc != RC_OK) { ++sh->stuck; TR.emit("{\"e\":\"Stuck\",\"rc\":\"%s\"}", rc_name(rc).c_str()); S.join_all(); continue; }
+                S.join_all(); g_fail_copy = -1;
+                // the final sequential inspection runs on a logical thread too: a container that an earlier fault left wedged must end as a Stuck event, not hang the harness
+                { Sched F; F.stall_limit = 40000; F.spawn(1, [&](int) { Drv<C>::final(*c); }); int frc = F.finish(4000000); sh->steps += F.steps;
+                  if (frc != RC_OK) { ++sh->stuck; TR.emit("{\"e\":\"Stuck\",\"rc\":\"%s\",\"at\":\"final\"}", rc_name(frc).c_str()); F.join_all(); continue; }
+                  F.join_all(); }
+                g_log_destroy = false; delete c;
+            }
+            TR.close(); _exit(0);
+        }
+        int status = 0; waitpid(pid, &status, 0);
+        std::ifstream in(tmp); std::string line; bool any = false;
+        while (std::getline(in, line)) { if (line.empty() || line.back() != '}') continue;
+            if (!any && !first && line.find("\"Reset\"") == std::string::npos) fputs("{\"e\":\"Reset\"}\n", out); any = true; first = false; fputs(line.c_str(), out); fputc('\n', out); }
+        if (WIFSIGNALED(status)) { ++crashed; fprintf(out, WTERMSIG(status) == SIGALRM ? "{\"e\":\"Stuck\",\"rc\":\"watchdog\"}\n" : "{\"e\":\"Crash\",\"sig\":%d}\n", WTERMSIG(status)); }
+        unlink(tmp.c_str());
     }
-    TR.close();
-    printf("{\"paths\":%d,\"steps\":%ld,\"stuck\":%ld,\"wall\":%.2f}\n", n, steps, stuck, tm.s());
+    fclose(out);
+    printf("{\"paths\":%d,\"steps\":%ld,\"stuck\":%ld,\"crashed\":%ld,\"wall\":%.2f}\n", n, sh->steps, sh->stuck, crashed, tm.s());
     return 0;
 }
 int main(int argc, char** argv) {
